@@ -1161,6 +1161,8 @@ class PredFlow:
                 elif rest:
                     cl = {self._cls(subj, r) for r in rest}
                     oth = cl.pop() if len(cl) == 1 else None
+                elif not t.get("all_variants"):
+                    oth = self._cls(subj, ("not", tuple(a["v"] for a in t["arms"])))
                 else:
                     oth = None
                 for a in t["arms"]:
@@ -1233,6 +1235,37 @@ class PredFlow:
 
     def at(self, bb):
         return self.K[bb]
+
+    def bool_value(self, bb, local):
+        """(when_true, when_false) of a bool local at the end of block bb (None if nothing is known)."""
+        if self.K[bb] == "B":
+            return None
+        env = dict(self.env_in[bb] or {})
+        for st in self.body.blocks[bb]["s"]:
+            if st["k"] == "assign" and not st["p"].get("pr") and self._is_bool(st["p"]["l"]):
+                env[st["p"]["l"]] = self._bool_rv(st["rv"], env, self.K[bb])
+        return env.get(local)
+
+    def returned_bool_agrees(self):
+        """Every assignment of the (bool) return place says `true` exactly when P holds: literal true only under P,
+        literal false only under not-P, or a bool that is true iff P.  Returns (ok, detail)."""
+        b = self.body
+        n = 0
+        for i, k, st in b.stmts():
+            if st["k"] != "assign" or st["p"]["l"] != 0 or st["p"].get("pr") or self.K[i] == "B":
+                continue
+            n += 1
+            v = self._bool_rv(st["rv"], dict(self._env_at(i, k)), self.K[i])
+            if v not in (("P", "N"), ("P", "B"), ("B", "N")):
+                return False, f"the result assigned in bb{i} is true under {v[0]} / false under {v[1]}"
+        return n > 0, f"{n} result assignments"
+
+    def _env_at(self, bb, idx):
+        env = dict(self.env_in[bb] or {})
+        for st in self.body.blocks[bb]["s"][:idx]:
+            if st["k"] == "assign" and not st["p"].get("pr") and self._is_bool(st["p"]["l"]):
+                env[st["p"]["l"]] = self._bool_rv(st["rv"], env, self.K[bb])
+        return env
 
 
 class _PromotedFn:
